@@ -763,3 +763,55 @@ Proof.
   - apply min_alt_del_alts_perm_le; [assumption|assumption|now apply Permutation_sym].
   - now apply min_alt_del_alts_perm_le.
 Qed.
+
+(* ---------------------------------------------------------------------------------------------- *)
+(* 9. strict profiles: the specification is C03's SP on the remaining alternatives                 *)
+
+Lemma delete_order_strictify D r : delete_order D (strictify r) = strictify (keepN D r).
+Proof.
+  induction r as [|a r IH]; [reflexivity|].
+  change (strictify (a :: r)) with ([a] :: strictify r). rewrite delete_order_fc, fclasses_cons.
+  rewrite <- delete_order_fc, IH. unfold keepN. simpl. destruct (memN a D); reflexivity.
+Qed.
+
+Theorem AltDel_strict alts rs D :
+  AltDel alts (map strictify rs) D <-> SP (keepN D alts) (map (keepN D) rs).
+Proof.
+  unfold AltDel, delete_alts. rewrite <- strict_agree, !map_map.
+  erewrite map_ext; [reflexivity|]. intros r. simpl. apply delete_order_strictify.
+Qed.
+
+Theorem VotDel_strict alts rs V :
+  VotDel alts (map strictify rs) V <-> exists rs', remove_idx V (map strictify rs) = map strictify rs' /\ SP alts rs'.
+Proof.
+  unfold VotDel, remove_idx. split.
+  - intros H. exists (map (@concat N) (remove_idx_from V 0 (map strictify rs))).
+    assert (E : remove_idx_from V 0 (map strictify rs) =
+                map strictify (map (@concat N) (remove_idx_from V 0 (map strictify rs)))).
+    { clear H. generalize 0. induction rs as [|r rs IH]; intros i; [reflexivity|].
+      cbn [map remove_idx_from]. destruct (mem_nat i V); [apply IH|].
+      cbn [map]. rewrite concat_strictify. f_equal. apply IH. }
+    split; [exact E|]. apply strict_agree. now rewrite <- E.
+  - intros (rs' & E & H). rewrite E. now apply strict_agree.
+Qed.
+
+(* ---------------------------------------------------------------------------------------------- *)
+(* 10. a boolean test of the domain hypothesis (used by the non-vacuity examples)                  *)
+
+Definition complete_onb (alts : list N) (o : order) : bool :=
+  nodupN (concat o) && forallb (fun c => negb (is_nil c)) o
+  && forallb (fun a => memN a (concat o)) alts && forallb (fun a => memN a alts) (concat o).
+
+Lemma complete_onb_sound alts o : complete_onb alts o = true -> complete_on alts o.
+Proof.
+  unfold complete_onb. rewrite !andb_true_iff, nodupN_correct, !forallb_forall.
+  intros [[[H1 H2] H3] H4]. split; [assumption|]. split.
+  - apply Forall_forall. intros c Hc E. specialize (H2 c Hc). subst c. discriminate.
+  - intros a. split; intros Ha; apply memN_In; auto.
+Qed.
+
+Lemma complete_profile_sound alts p :
+  forallb (complete_onb alts) p = true -> Forall (complete_on alts) p.
+Proof.
+  rewrite forallb_forall, Forall_forall. intros H o Ho. apply complete_onb_sound. now apply H.
+Qed.
